@@ -542,6 +542,111 @@ theorem PQ.flushStep {m : Mem} {X Y : StreamM} {qxy qyx : QDir} (h : PQ N m X Y 
                   (fun p hp => unt p (by have := cp hp; omega))
                 exact ⟨a1, a2, a3, a4, a5, a6⟩
 
+theorem Untouched.trans {m m1 m2 : Mem} {p : Nat} (a : Untouched m m1 p) (b : Untouched m1 m2 p) : Untouched m m2 p :=
+  ⟨b.1, b.2.1.trans a.2.1, b.2.2.trans a.2.2⟩
+
+theorem untouched_refl_of_held {m : Mem} {X Y : StreamM} (h : PI N m X Y) (p : Nat) (hp : p ∈ heldSt m Y) : Untouched m m p := by
+  have h1 := part_le_one h p
+  have c1 : 0 < (heldSt m Y).count p := count_pos_iff.mpr hp
+  exact ⟨fc_zero.mp (by omega), rfl, rfl⟩
+
+/-- pendingData.clear leaves the other end alone -/
+theorem clear_untouched {Y : StreamM} : ∀ (ws : List Wrap) (m : Mem) (X : StreamM), PI N m X Y → X.pending = ws →
+    Geo m (clearPending m ws) ∧ ∀ p ∈ heldSt m Y, Untouched m (clearPending m ws) p
+  | [], m, X, h, _ => ⟨Geo.refl m, fun p hp => untouched_refl_of_held h p hp⟩
+  | w :: ws, m, X, h, hp => by
+    have h1 := h.dropPending hp
+    have step : Geo m (clear1 m w) ∧ ∀ p ∈ heldSt m Y, Untouched m (clear1 m w) p := by
+      cases w with
+      | fb s => exact ⟨Geo.refl m, fun p hp' => untouched_refl_of_held h p hp'⟩
+      | shm off =>
+        have hw : Wrap.shm off ∈ X.pending := by rw [hp]; exact mem_cons_self
+        have hc : IsChain m off (chain m.slots.length m off) := h.x.pend _ hw
+        obtain ⟨hn, hl⟩ := chain_bound h off hw
+        obtain ⟨g, _, c, hh, hd, _⟩ := recycleChain_acct _ m off m.slots.length h.shape hc hn hl
+        refine ⟨g, fun p hp' => ?_⟩
+        have h7 := h.seven p
+        have c1 : 0 < (heldSt m Y).count p := count_pos_iff.mpr hp'
+        have e1 : (heldSt m Y).count p = (heldL Y.send).count p + (heldL Y.recv).count p + (flight m Y.pending).count p := by
+          simp only [heldSt, count_append]
+        have c2 := count_chain_le_flight m p off X.pending hw
+        have hnot : p ∉ chain m.slots.length m off := count_eq_zero.mp (by omega)
+        refine ⟨fc_zero.mp ?_, hh p hnot, hd p⟩
+        show fc (m.recycleChain m.slots.length off) p = 0
+        rw [c, count_eq_zero.mpr hnot]; omega
+    obtain ⟨g1, u1⟩ := step
+    have ey1 : heldSt (clear1 m w) Y = heldSt m Y := (h.y.foreign g1 u1).2
+    obtain ⟨g2, u2⟩ := clear_untouched ws (clear1 m w) { X with pending := ws } h1 rfl
+    have e : clearPending m (w :: ws) = clearPending (clear1 m w) ws := by unfold clearPending; rw [foldl_cons]
+    rw [e]
+    exact ⟨g1.trans g2, fun p hp' => (u1 p hp').trans (u2 p (by rw [ey1]; exact hp'))⟩
+
+/-- Stream.clean (Close) of `X` leaves everything `Y` holds alone -/
+theorem close_untouched {m : Mem} {X Y : StreamM} (h : PI N m X Y) :
+    Geo m (closeStream m X) ∧ ∀ p ∈ heldSt m Y, Untouched m (closeStream m X) p := by
+  obtain ⟨g1, u1⟩ := clear_untouched X.pending m X h rfl
+  have h1 := PI.clearStep X.pending m X h rfl
+  have ey1 : heldSt (clearPending m X.pending) Y = heldSt m Y := (h.y.foreign g1 u1).2
+  obtain ⟨a2, _⟩ := lrecycle_acct (clearPending m X.pending) X.recv h1.shape h1.x.recv
+  have h2 := h1.recvStep a2
+  have u2 : ∀ p ∈ heldSt (clearPending m X.pending) Y, Untouched (clearPending m X.pending) (X.recv.recycle (clearPending m X.pending)).1 p := by
+    intro p hp
+    have c1 : 0 < (heldSt (clearPending m X.pending) Y).count p := count_pos_iff.mpr hp
+    have e1 : (heldSt (clearPending m X.pending) Y).count p = (heldL Y.send).count p + (heldL Y.recv).count p +
+        (flight (clearPending m X.pending) Y.pending).count p := by simp only [heldSt, count_append]
+    exact h1.untouchedR a2 p (by omega)
+  have ey2 : heldSt (X.recv.recycle (clearPending m X.pending)).1 Y = heldSt (clearPending m X.pending) Y :=
+    (h1.y.foreign a2.geo u2).2
+  obtain ⟨a3, _⟩ := lrecycle_acct (X.recv.recycle (clearPending m X.pending)).1 X.send h2.shape h2.x.send
+  have u3 : ∀ p ∈ heldSt (X.recv.recycle (clearPending m X.pending)).1 Y,
+      Untouched (X.recv.recycle (clearPending m X.pending)).1 (X.send.recycle (X.recv.recycle (clearPending m X.pending)).1).1 p := by
+    intro p hp
+    have h7 := h2.seven p
+    dsimp only at h7
+    have c1 : 0 < (heldSt (X.recv.recycle (clearPending m X.pending)).1 Y).count p := count_pos_iff.mpr hp
+    have e1 : (heldSt (X.recv.recycle (clearPending m X.pending)).1 Y).count p = (heldL Y.send).count p + (heldL Y.recv).count p +
+        (flight (X.recv.recycle (clearPending m X.pending)).1 Y.pending).count p := by simp only [heldSt, count_append]
+    have hf : p ∉ (X.recv.recycle (clearPending m X.pending)).1.free.flatten := fc_zero.mp (by omega)
+    have hs : p ∉ heldL X.send := count_eq_zero.mp (by omega)
+    exact ⟨(a3.outside hf hs).1, a3.hdr p hf hs, a3.data p⟩
+  refine ⟨(g1.trans a2.geo).trans a3.geo, fun p hp => ?_⟩
+  have hp1 : p ∈ heldSt (clearPending m X.pending) Y := by rw [ey1]; exact hp
+  have hp2 : p ∈ heldSt (X.recv.recycle (clearPending m X.pending)).1 Y := by rw [ey2]; exact hp1
+  exact ((u1 p hp).trans (u2 p hp1)).trans (u3 p hp2)
+
+/-- Stream.clean (Close) of `X`: its own three buffers are emptied - what was flushed towards it and what it had composed is
+    gone - and the other direction keeps what was flushed -/
+theorem PQ.closeStep {m : Mem} {X Y : StreamM} {qxy qyx : QDir} (fb : Bool) (h : PQ N m X Y qxy qyx) :
+    PQ N (closeStream m X) { inFallback := fb } Y { qxy with composed := [] } { qyx with flushed := [] } := by
+  have hpi := h.pi.closeStep fb
+  obtain ⟨g, u⟩ := close_untouched h.pi
+  have mem3 : ∀ p, (p ∈ heldL Y.send ∨ p ∈ heldL Y.recv ∨ p ∈ flight m Y.pending) → p ∈ heldSt m Y := by
+    intro p hp
+    simp only [heldSt, mem_append]
+    rcases hp with hp | hp | hp
+    · exact Or.inl (Or.inl hp)
+    · exact Or.inl (Or.inr hp)
+    · exact Or.inr hp
+  have ur : ∀ p ∈ heldL Y.recv, Untouched m (closeStream m X) p := fun p hp => u p (mem3 p (Or.inr (Or.inl hp)))
+  have uf : ∀ p ∈ flight m Y.pending, Untouched m (closeStream m X) p := fun p hp => u p (mem3 p (Or.inr (Or.inr hp)))
+  have us : ∀ p ∈ heldL Y.send, Untouched m (closeStream m X) p := fun p hp => u p (mem3 p (Or.inl hp))
+  have e1 : content (closeStream m X) Y.recv.sl = content m Y.recv.sl :=
+    content_untouched (fun p hp' => (ur p (mem_append_left _ hp')).2.2)
+  have e2 : flightSlices (closeStream m X) Y.pending = flightSlices m Y.pending :=
+    flightSlices_foreign g h.pi.y.pend (fun p hp' => (uf p hp').2.1)
+  have hfl : ∀ p ∈ heldS (flightSlices m Y.pending), ((closeStream m X).slot p).data = (m.slot p).data := by
+    intro p hp'
+    rw [heldS_flightSlices m _ h.pi.y.pend] at hp'
+    exact (uf p hp').2.2
+  have e3 : content (closeStream m X) (flightSlices m Y.pending) = content m (flightSlices m Y.pending) := content_untouched hfl
+  have e4 : content (closeStream m X) Y.send.sl = content m Y.send.sl :=
+    content_untouched (fun p hp' => (us p (mem_append_left _ hp')).2.2)
+  refine ⟨hpi, ?_, ?_⟩
+  · refine ⟨?_, rfl, slicesWF_untouched (fun p hp' => (ur p (mem_append_left _ hp')).2.2) h.xy.rwf,
+      by rw [e2]; exact slicesWF_untouched hfl h.xy.pwf, by rw [e1]; exact h.xy.rlen, rfl⟩
+    unfold flightBytes; rw [e1, e2, e3]; exact h.xy.fl
+  · exact ⟨rfl, by rw [e4]; exact h.yx.co, (fun _ hh => nomatch hh), (fun _ hh => nomatch hh), rfl, by rw [e4]; exact h.yx.slen⟩
+
 theorem content_recycles (sl : List BS) : ∀ (m : Mem) (l : List BS), content (sl.foldl (fun m s => m.recycle s) m) l = content m l := by
   induction sl with
   | nil => intro m l; rfl
@@ -618,12 +723,13 @@ def qstep (q : QSys) : POp → QSys × List Nat
   | .peek x n => (q, (q.dir (!x)).flushed.take n)
   | .discard x n => (q.set (!x) { (q.dir (!x)) with flushed := (q.dir (!x)).flushed.drop n }, [])
   | .release _ => (q, [])
+  | .close x => ((q.set x { (q.dir x) with composed := [] }).set (!x) { (q.dir (!x)) with flushed := [] }, [])
   | _ => (q, [])
 
-/-- the operations this refinement covers (the others - ReadByte, ReadString, Read, Close - have their slot accounting in
+/-- the operations this refinement covers (the others - ReadByte, ReadString, Read - have their slot accounting in
     `pstep_inv` but no byte-level statement here) -/
 def Covered : POp → Prop
-  | .write _ _ | .writeByte _ _ | .flush _ | .more _ | .readBytes _ _ | .peek _ _ | .discard _ _ | .release _ => True
+  | .write _ _ | .writeByte _ _ | .flush _ | .more _ | .readBytes _ _ | .peek _ _ | .discard _ _ | .release _ | .close _ => True
   | _ => False
 
 /-- what Stream.readMore guarantees before a reader call runs: the requested bytes are buffered -/
@@ -760,7 +866,12 @@ theorem pq_step {s s' : PSys} {q : QSys} {op : POp} (h : PQS N s q) (hc : Covere
   | readByte x => exact absurd hc (by simp [Covered])
   | readString x n => exact absurd hc (by simp [Covered])
   | readInto x n => exact absurd hc (by simp [Covered])
-  | close x => exact absurd hc (by simp [Covered])
+  | close x =>
+    obtain ⟨hx, put1, _⟩ := h.side x
+    simp only [pstep] at e
+    simp only [Option.some.injEq] at e
+    subst e
+    exact ⟨put1 _ _ _ _ (hx.closeStep _), rfl⟩
 
 /-! ### runs -/
 
